@@ -505,7 +505,7 @@ func (e *engine) all() error {
 	if os.Getenv("C03_RACE_CHILD") != "" {
 		// child built with -race: only the concurrent engine, oracle-only
 		r := common.NewRng(o.Seed)
-		for i := 0; i < 1500; i++ {
+		for i := 0; i < 200; i++ {
 			if err := e.eval(genRaceCase(r.Fork(uint64(5<<32 + i)))); err != nil {
 				return err
 			}
